@@ -367,6 +367,35 @@ pub fn run(cfg: &Cfg, rep: &mut Rep) {
             check_family_reject(rep, &tab, y, m as u8, d as u8, h as u8, mi as u8, s as u8, ns as u32, ts);
         }
     }
+    // the full cross of the special values of all six fields (seed-independent): an acceptance path for one unusual value
+    // (hour 24, second 60, nanoseconds 10^9) must not bypass the check of any *other* field - whichever combination of them
+    // the input carries. The random lattice above pushes one or two fields only and leaves the others random.
+    if !cfg.fuzz {
+        let mut idx = 0u32;
+        for y in [1900i32, 2000, 2021, 2024, 1972, 2016, -4, 9999] {
+            for m in [0u8, 1, 2, 4, 12, 13, 255] {
+                for d in [0u8, 1, 28, 29, 30, 31, 32, 255] {
+                    for h in [0u8, 23, 24, 25, 255] {
+                        for mi in [0u8, 59, 60, 255] {
+                            for s in [0u8, 59, 60, 61, 255] {
+                                idx += 1;
+                                if idx % NSHARDS != sh {
+                                    continue;
+                                }
+                                for ns in [0u32, 999_999_999, 1_000_000_000, 1_000_000_001, u32::MAX] {
+                                    let ts = SCALES[((idx + ns % 7) % 9) as usize];
+                                    check(rep, &tab, y, m, d, h, mi, s, ns, ts, false);
+                                    if (idx / NSHARDS + ns % 5) % 16 == 0 {
+                                        check_family_reject(rep, &tab, y, m, d, h, mi, s, ns, ts);
+                                    }
+                                }
+                            }
+                        }
+                    }
+                }
+            }
+        }
+    }
     // second = 60 on every 30 Jun / 31 Dec 1960..2030 (and other dates), crossed with every time of day class and every
     // nanosecond class: the leap-second acceptance must not bypass any other field's check
     for y in 1960..=2030 {
